@@ -97,6 +97,19 @@ def check_big(n, acc):
             check_lib(("big", n), spec, acc, route, lib=lib, case_extra={"big": n})
 
 
+def check_same_object(acc):
+    """The very same block object held at several positions (a divider comment added again and again, a preamble
+    shared by merged files): every position is a block of its own for the writer."""
+    for spec in BIG_FORMATS:
+        for route in ("verbatim", "default"):
+            uni = universe()
+            for names in (("IC", "E1", "IC", "E3", "IC"), ("P", "IC", "P"), ("EC", "EC"), ("IC", "IC", "E0", "IC", "IC")):
+                blocks = [uni[n] for n in names]
+                lib = Library(blocks)
+                acc.count("same_object_libraries")
+                check_lib(("same-object",) + names, spec, acc, route, lib=lib, case_extra={"same_object": list(names)})
+
+
 def check_history(acc):
     """The same Library and BibtexFormat objects over a history of writes and in-place edits (longer / shorter keys,
     added and removed fields and blocks): every write obeys the contract for the library as it is then."""
@@ -116,17 +129,50 @@ def check_history(acc):
                 ("replace block", lambda: lib.replace(uni["E5"], uni["E0"])),
             ]
             done = []
+            fmt_shared = mkformat(spec)
             for label, action in steps:
                 if action is not None:
                     action()
                 done.append(label)
                 acc.count("history_writes")
                 check_lib(("history",) + tuple(done), spec, acc, route, lib=lib, case_extra={"history": list(done)})
+                # a write that is rejected (hostile library / broken comment template) with a long-lived format object:
+                # the format must come out as it went in, and the next good write must be as with a fresh format
+                from .. import hostile
+
+                for hn, mk in enumerate(hostile.libraries()[-6:] + [lambda: Library([uni["PF"]])]):
+                    before = canon(fmt_shared)
+                    bad_tpl = hn == 6
+                    if bad_tpl:
+                        fmt_shared.parsing_failed_comment = "% {n} {no_such_placeholder}"
+                    try:
+                        bibtexparser.write_string(mk(), bibtex_format=fmt_shared, **({"unparse_stack": []} if route == "verbatim" else {}))
+                    except Exception:
+                        pass
+                    if bad_tpl:
+                        fmt_shared.parsing_failed_comment = spec[4]
+                    if canon(fmt_shared) != before:
+                        acc.violation(
+                            {"oracle": "format_left_unchanged", "path": "rejected write"},
+                            {"case": {"history": list(done), "format": list(spec), "route": route, "rejected_write": hn}, "observed": repr(vars(fmt_shared)), "expected": list(spec)},
+                        )
+                        fmt_shared = mkformat(spec)
+                try:
+                    a = bibtexparser.write_string(lib, bibtex_format=fmt_shared, **({"unparse_stack": []} if route == "verbatim" else {}))
+                    b = bibtexparser.write_string(lib, bibtex_format=mkformat(spec), **({"unparse_stack": []} if route == "verbatim" else {}))
+                    if a != b:
+                        acc.violation(
+                            {"oracle": "long_lived_format_equals_fresh_format"},
+                            {"case": {"history": list(done), "format": list(spec), "route": route}, "observed": a, "expected": b},
+                        )
+                        fmt_shared = mkformat(spec)
+                except Exception as ex:
+                    acc.exception(ex, {"history": list(done), "format": list(spec), "route": route}, "write_string")
 
 
 def shards(tier):
     maxb = 2 if tier == "quick" else 3
-    out = [("libs", ()), ("history", 0)] + [("big", n) for n in (bigdocs.SIZES_QUICK if tier == "quick" else bigdocs.SIZES_THOROUGH)]
+    out = [("libs", ()), ("history", 0), ("same", 0)] + [("big", n) for n in (bigdocs.SIZES_QUICK if tier == "quick" else bigdocs.SIZES_THOROUGH)]
     for a in NAMES:
         if maxb == 2:
             out.append(("libs", (a,)))
@@ -299,6 +345,8 @@ def run_shard(shard, tier, acc):
         return check_big(shard[1], acc)
     if shard[0] == "history":
         return check_history(acc)
+    if shard[0] == "same":
+        return check_same_object(acc)
     _, prefix = shard
     maxb = 2 if tier == "quick" else 3
     fs = formats(tier)
@@ -328,6 +376,8 @@ def replay(case, acc):
         return check_big(case["big"], acc)
     if "history" in case:
         return check_history(acc)
+    if "same_object" in case:
+        return check_same_object(acc)
     check_lib(tuple(case["library"]), tuple(case["format"]), acc, case.get("route", "verbatim"))
 
 
